@@ -2,6 +2,7 @@ package main
 
 import (
 	"fmt"
+	"io"
 	"strings"
 
 	"github.com/rs/zerolog"
@@ -97,6 +98,39 @@ func checkWorld(r *seq.Run, w *world, seqn []op) {
 			}
 		} else {
 			r.Violation("", "probe-marshalers", fmt.Sprintf("%s: %d of 3 probe marshalers ran", desc(), len(w.seen)), desc())
+		}
+		// the scratch paths: marshalers reached through Fields (map and slice), error values that render themselves
+		// as objects (Err, Errs, Fields, Array.Err), Array.Object, EmbedObject - on an event and on a Context. Each
+		// may see the owner's context or the background one, never another event's
+		w.seen = nil
+		po, pe := seqx.CtxProbe{Seen: &w.seen}, seqx.CtxProbeErr{Seen: &w.seen}
+		{
+			// first fill the pool with events that another logger, with another Go context, has finalised
+			other := zerolog.New(io.Discard).With().Ctx(seqx.GoCtx(77)).Logger()
+			var open []*zerolog.Event
+			for k := 0; k < 6; k++ {
+				open = append(open, other.Info().Int("k", k))
+			}
+			for _, e := range open {
+				e.Msg("other")
+			}
+		}
+		lg.Info().Fields(map[string]interface{}{"fo": po}).Fields([]interface{}{"fs", po, "fe", pe, "fes", []error{pe}}).
+			Err(pe).Errs("es", []error{pe}).Array("a", zerolog.Arr().Object(po).Err(pe)).EmbedObject(po).Msg("probe3")
+		nEvent := len(w.seen)
+		_ = lg.With().Fields(map[string]interface{}{"fo": po}).Fields([]interface{}{"fe", pe}).Err(pe).Errs("es", []error{pe}).Array("a", zerolog.Arr().Object(po).Err(pe)).EmbedObject(po).Logger()
+		if nEvent != 9 || len(w.seen) != 16 {
+			r.Violation("", "probe-marshalers", fmt.Sprintf("%s: %d / %d of 9 / 16 scratch-path probe marshalers ran", desc(), nEvent, len(w.seen)), desc())
+		}
+		for k, c := range w.seen {
+			if id := seqx.CtxID(c); id != 0 && id != o.m.GoCtx {
+				where := "an event"
+				if k >= nEvent {
+					where = "a Context"
+				}
+				r.Violation("", "stale-goctx/scratch", fmt.Sprintf("%s: scratch-path marshaler #%d of %s (Fields / Err / Errs / Array.Object / Array.Err / EmbedObject) read Go context c%d left behind by another event (logger value %d has c%d)", desc(), k, where, id, i, o.m.GoCtx), desc())
+				break
+			}
 		}
 	}
 	r.Eval(desc()+sb.String(), len(w.objs) > 2)
